@@ -392,10 +392,56 @@ fn deep_operands() -> Vec<Dec> {
     vec![Dec::new(1, 5), Dec { n: big("12345677654321"), s: 7 }, Dec::new(-3, 0)]
 }
 
+/// W1: one primitive operand of a wide type at a structured value (alpha::near_powers_of_ten, type limits) through
+/// overload `shape` on the accumulator; returns None when the value does not fit the type
+fn wide_prim(m: &M, acc: &Dec, ty: &str, shape: usize, v: &BigInt) -> Option<Result<(), (String, String)>> {
+    use num_traits::ToPrimitive;
+    let accb = bd(acc);
+    let q = Dec { n: v.clone(), s: 0 };
+    macro_rules! go {
+        ($t:ty, $conv:ident) => {{
+            let shapes = prim_shapes!($t);
+            let sh = &shapes[shape];
+            let pv: $t = v.$conv()?;
+            let want = if sh.swapped { sh.op.model(&q, acc) } else { sh.op.model(acc, &q) };
+            (guard(|| (sh.f)(&accb, pv)), want)
+        }};
+    }
+    let (got, want) = match ty {
+        "u64" => go!(u64, to_u64),
+        "i64" => go!(i64, to_i64),
+        "u128" => go!(u128, to_u128),
+        _ => go!(i128, to_i128),
+    };
+    Some(match got {
+        Err(p) => Err((want.show(), format!("panic: {}", p))),
+        Ok(r) => {
+            let rd = dec(&r);
+            if !rd.eq_val(&want) {
+                Err((want.show(), rd.show()))
+            } else if let Err(e) = m.observe_ok(&r, &want) {
+                Err((format!("comparisons/hashes of {} agree with its exact value", rd.show()), e))
+            } else {
+                Ok(())
+            }
+        }
+    })
+}
+const WIDE_TYPES: [(&str, u32); 4] = [("u64", 64), ("i64", 63), ("u128", 128), ("i128", 127)];
+
 fn replay(m: &M, case: &Value) -> Vec<Violation> {
     // a recorded step: rebuild the accumulator and apply the named action without any explorer;
     // a recorded path: apply the listed actions one after another from the initial operand
     let find = |name: &str| m.all_actions().into_iter().find(|a| m.describe(a) == name).unwrap_or_else(|| panic!("unknown action {}", name));
+    if let Some(w) = case.get("wide_prim") {
+        let acc = jd(&case["acc"]);
+        let shape = m.p_i64.iter().position(|s| s.name == w["shape"].as_str().unwrap()).expect("shape");
+        let v = big(w["value"].as_str().unwrap());
+        return match wide_prim(m, &acc, w["ty"].as_str().unwrap(), shape, &v) {
+            Some(Err((want, got))) => vec![Violation::new("wide primitive operand", "wrong_value", case.clone(), want, got)],
+            _ => vec![],
+        };
+    }
     let mut out = vec![];
     let mut cur = jd(&case["acc"]);
     let acts: Vec<String> = match case.get("path") {
@@ -475,6 +521,40 @@ fn main() {
     run.bound("deep_depth", deep_depth);
     let r4 = bfs(&run, &m3, "BFS deep narrow alphabet", &deep, deep_depth);
     run.extra("level_sizes_deep_narrow", json!(r4.iter().map(|x| x.0).collect::<Vec<_>>()));
+    // W1: depth-one layer with a WIDE primitive alphabet: every primitive overload x {u64, i64, u128, i128} x every
+    // 10^k + d that fits the type (d up to +-32768: values a float-based shortcut takes for a power of ten), the
+    // type limits, both signs for the signed types, on every pool accumulator
+    let wide_acc: Vec<Dec> = m.pool.iter().map(|p| p.0.clone()).collect();
+    let nshapes = m.p_i64.len();
+    run.bound("W1_wide_primitives", json!({"accumulators": wide_acc.len(), "overloads": nshapes, "types": ["u64", "i64", "u128", "i128"], "values": "10^k + d, d in {0, +-1, +-2, +-3, +-16, +-17, 32, +-256, +-2048, +-32768}, every k within the type; type limits"}));
+    run.par("W1 wide primitive operands at depth one", wide_acc.len() * nshapes, |i| {
+        let mut t = Tally::default();
+        let (acc, shape) = (&wide_acc[i / nshapes], i % nshapes);
+        for (ty, bits) in WIDE_TYPES {
+            let mut vals = near_powers_of_ten(bits);
+            vals.push((BigInt::from(1) << bits) - 1);
+            vals.push((BigInt::from(1) << bits) - 2);
+            if ty.starts_with('i') {
+                let neg: Vec<BigInt> = vals.iter().map(|v| -v).collect();
+                vals.extend(neg);
+                vals.push(-(BigInt::from(1) << bits));
+            }
+            for v in vals.iter() {
+                match wide_prim(&m, acc, ty, shape, v) {
+                    None => {}
+                    Some(r) => {
+                        t.states += 1;
+                        t.transitions += 1;
+                        t.nontrivial += 1;
+                        if let Err((want, got)) = r {
+                            run.report(Violation::new("wide primitive operand", "wrong_value", json!({"acc": acc.show(), "wide_prim": {"ty": ty, "shape": m.p_i64[shape].name, "value": v.to_string()}}), want, got).attr("overload", m.p_i64[shape].name));
+                        }
+                    }
+                }
+            }
+        }
+        t
+    });
     // determinism: re-explore the full-alphabet graph to one level less and compare level sizes and digests
     let r1b = bfs(&run, &m, "BFS full alphabet (determinism re-run)", &full, depth_full.saturating_sub(1).max(1));
     // (the last level of a run is checked but not stored, so it is excluded from the comparison)
